@@ -730,6 +730,67 @@ def gen_axis_stream_cases(tier, rng):
     return out if tier != "quick" else rng.sample(out, min(len(out), 100))
 
 
+def position_test_isolation_failures(rng, count):
+    """C18 with the library's own position tests, whose signatures have no `inp` parameter: a location_test / speed_test
+    that cannot run (bbox of three numbers; no lat / lon in the table) drops out, the run completes, and a healthy
+    gross_range_test gives the flags it gives alone"""
+    import logging
+    import warnings
+
+    import numpy as np
+    import pandas as pd
+    from ioos_qc.config import Config
+    from ioos_qc.results import collect_results
+    from ioos_qc.streams import NumpyStream, PandasStream
+
+    logging.disable(logging.CRITICAL)
+    fails, n_eval = [], 0
+    for _ in range(count):
+        n = rng.randint(2, 6)
+        vals = np.array([float(rng.randint(-3, 14)) for _ in range(n)])
+        t = pd.date_range("2020-01-01", periods=n, freq="1h")
+        has_pos = rng.random() < 0.5
+        bad = rng.choice([("qartod", "location_test", {"bbox": [0, 0, 5]}), ("argo", "speed_test", {"suspect_threshold": 1, "fail_threshold": "x"})]
+                         if has_pos else
+                         [("qartod", "location_test", {}), ("argo", "speed_test", {"suspect_threshold": 1, "fail_threshold": 3})])
+        healthy = {"qartod": {"gross_range_test": {"fail_span": [0, 10], "suspect_span": [1, 9]}}}
+        faulty = {bad[0]: dict(healthy.get(bad[0], {}), **{bad[1]: bad[2]})}
+        both = {k: dict(healthy.get(k, {}), **faulty.get(k, {})) for k in set(healthy) | set(faulty)}
+        order = rng.choice(["bad_first", "bad_last"])
+        streams = {"v": both} if order == "bad_last" else {"v": {k: both[k] for k in sorted(both, reverse=True)}}
+        fe = rng.choice(["pandas", "numpy"])
+
+        def run(cfgd):
+            with warnings.catch_warnings():
+                warnings.simplefilter("ignore")
+                cfg = Config({"contexts": [{"streams": cfgd}]})
+                if fe == "pandas":
+                    d = {"time": t, "v": vals}
+                    if has_pos:
+                        d["lat"], d["lon"] = np.full(n, 10.0), np.arange(n) * 0.5
+                    res = PandasStream(pd.DataFrame(d)).run(cfg)
+                else:
+                    kw = {"time": t.to_numpy()}
+                    if has_pos:
+                        kw["lat"], kw["lon"] = np.full(n, 10.0), np.arange(n) * 0.5
+                    res = NumpyStream(inp=vals, **kw).run(cfg)
+                return {(cr.stream_id, cr.test): core.canon_flags(cr.results) for cr in collect_results(res, how="list")}
+        n_eval += 2
+        case = {"frontend": fe, "n": n, "vals": vals.tolist(), "position_columns": has_pos, "failing_entry": list(bad), "order": order}
+        try:
+            alone = run({"v" if fe == "pandas" else "_stream": healthy} if False else {"v": healthy})
+            full = run(streams)
+        except Exception as e:  # noqa: BLE001
+            fails.append({"kind": "predicate", "function": "stream_run+collect", "case": case, "impl": core.canon_exc(e),
+                          "clause": "the run did not complete although only one test could not run"})
+            continue
+        if full != alone:
+            fails.append({"kind": "predicate", "function": "stream_run+collect", "case": case, "impl": {str(k): v for k, v in full.items()},
+                          "expected": {str(k): v for k, v in alone.items()},
+                          "clause": "results differ from those of the configuration without the test that cannot run"})
+    return n_eval, fails
+
+
 def gen_nat_cases(tier, rng):
     """tables in which some records have no time stamp (NaT), on the front ends that take plain arrays / tables
     (an xarray time coordinate must be sorted, hence complete)"""
